@@ -150,6 +150,10 @@ class Engine:
         if cond is True or cond is False:
             return [(st, cond)]
         c = cond.t
+        if self.abstract:
+            # abstract mode: no pruning queries; both sides are explored and infeasible paths die in the final query
+            self.stats['forks'] += 1
+            return [(st.fork(c), True), (st.fork(z3.Not(c)), False)]
         t_ok = self.feasible(st.pc, c)
         f_ok = self.feasible(st.pc, z3.Not(c)) if t_ok else True
         if t_ok and f_ok:
@@ -522,7 +526,7 @@ class Engine:
 
     def _conds(self, st0, states):
         n0 = len(st0.pc)
-        return [z3.And(s.pc[n0:]) if len(s.pc) > n0 + 1 else (s.pc[n0] if len(s.pc) > n0 else z3.BoolVal(True)) for s in states]
+        return [fast_and(s.pc[n0:]) if len(s.pc) > n0 + 1 else (s.pc[n0] if len(s.pc) > n0 else z3.BoolVal(True)) for s in states]
 
     def merge_outcomes(self, st0, outs):
         """merge outcomes of one kind that differ only in value/heap, by ite on path conditions"""
@@ -557,7 +561,7 @@ class Engine:
         except Unmergeable:
             return group
         self.stats['merges'] += 1
-        ns = State(st0.pc + [z3.simplify(z3.Or(conds))], st0.env, heap, hver)
+        ns = State(st0.pc + [z3.simplify(fast_or(conds))], st0.env, heap, hver)
         return [(ns, kind, acc)]
 
     def _merge_raises(self, st0, group):
@@ -618,7 +622,7 @@ class Engine:
         except Unmergeable:
             return states
         self.stats['merges'] += 1
-        return [State(st0.pc + [z3.simplify(z3.Or(conds))], env, heap, hver)]
+        return [State(st0.pc + [z3.simplify(fast_or(conds))], env, heap, hver)]
 
     # ------------------------------------------------------------------ statements
     def lift(self, outs, k):
@@ -1455,10 +1459,11 @@ class Engine:
                     # symbolic: evaluate the tail under the extended path condition, merge value
                     out = []
                     c = t.t if is_and else z3.Not(t.t)
-                    if not self.feasible(s3.pc, c):
-                        return [(s3, NORMAL, v)]
-                    if not self.feasible(s3.pc, z3.Not(c)):
-                        return rec(s3, i + 1)
+                    if not self.abstract:
+                        if not self.feasible(s3.pc, c):
+                            return [(s3, NORMAL, v)]
+                        if not self.feasible(s3.pc, z3.Not(c)):
+                            return rec(s3, i + 1)
                     tail = rec(s3.fork(c), i + 1)
                     short = (s3.fork(z3.Not(c)), NORMAL, v)
                     return self.merge_outcomes(s3, tail + [short])
@@ -1898,6 +1903,25 @@ def _writes_precision(node):
                 if isinstance(c, ast.Call) and isinstance(c.func, ast.Attribute) and c.func.attr in ('workprec', 'workdps', 'extraprec', 'extradps'):
                     return True
     return False
+
+
+def fast_and(lst):
+    """conjunction without the z3py per-argument coercion overhead (path conditions can have hundreds of conjuncts)"""
+    n = len(lst)
+    ctx = lst[0].ctx
+    arr = (z3.Ast * n)()
+    for i, a in enumerate(lst):
+        arr[i] = a.as_ast()
+    return z3.BoolRef(z3.Z3_mk_and(ctx.ref(), n, arr), ctx)
+
+
+def fast_or(lst):
+    n = len(lst)
+    ctx = lst[0].ctx
+    arr = (z3.Ast * n)()
+    for i, a in enumerate(lst):
+        arr[i] = a.as_ast()
+    return z3.BoolRef(z3.Z3_mk_or(ctx.ref(), n, arr), ctx)
 
 
 def _shared_names(fnode):
